@@ -66,6 +66,9 @@ def htyped(fn, l):
     return l is not None and H.search(fn.ty.get(l, '')) is not None
 
 
+# the same consumption spelled two ways gets one label: `Vec::from_iter(set)` / `set.into_iter().collect()`
+CONSUMER_ALIAS = {'from_iter': 'collect'}
+
 class Analysis:
     def __init__(self, prog, rep, reviewed):
         self.prog = prog
@@ -175,6 +178,25 @@ class Analysis:
                             changed = True
         return al
 
+    HANDLE_TRANSPORT = {'clone', 'deref', 'deref_mut', 'borrow', 'borrow_mut', 'as_mut', 'as_ref', 'by_ref', 'into', 'from'}
+
+    def error_stream_only(self, fn, c, ai):
+        """the stream written to is a WriteHandle and every origin of it, through parameters into all product callers and through
+        closure captures, is the stderr (or the discarding) handle constructor"""
+        if ai >= len(c.args) or not is_place(c.args[ai]) or 'util::rw::WriteHandle' not in (fn.ty.get(c.args[ai]['pl']['l'], '') or ''):
+            return False
+        key = (fn.name, c.bb, ai)
+        cache = self.__dict__.setdefault('_err_stream_cache', {})
+        if key in cache:
+            return cache[key]
+        org = mir.deep_origins(self.prog, fn, c.args[ai], depth=6, follow_all=False)
+        ctors = [x for x in org.calls if re.search(r'WriteHandle::\w*write_handle$', x.callee)]
+        other = [x for x in org.calls if x not in ctors and x.short not in self.HANDLE_TRANSPORT]
+        ok = bool(ctors) and not org.params and not other and \
+            all(re.search(r'WriteHandle::(stderr|empty)_write_handle$', x.callee) for x in ctors)
+        cache[key] = ok
+        return ok
+
     def _classify_mut_call(self, fn, c, ai, l, depth, in_loop_keys):
         """classify a call that receives (an alias of) outer mutable state as argument ai.
         returns (verdict, description); verdict in ok|sens|keyed"""
@@ -214,6 +236,8 @@ class Analysis:
         if cn == 'flush':
             return 'ok', 'flush (adds no content)'
         if cn in ('write', 'write_all', 'write_fmt', 'write_str', 'write_record', 'serialize_field', 'serialize_element'):
+            if cn in ('write', 'write_all', 'write_fmt', 'write_str') and self.error_stream_only(fn, c, ai):
+                return 'ok', 'written to the error stream only (every origin of the handle is WriteHandle::stderr_write_handle / empty_write_handle): not standard output, not an output file'
             return 'sens', 'stream %s' % cn
         if DEC.search(tgt) and cn in ('add_assign', 'sub_assign', 'mul_assign', 'div_assign', 'rem_assign'):
             return 'sens', 'Decimal read-modify-write (%s); rust_decimal arithmetic is not associative at 28 digits' % cn
@@ -759,7 +783,7 @@ class Analysis:
         def key(kind, c):
             # name the consumer by the container it draws from (stable when another consumer is added to the function);
             # the ordinal only separates consumers of the same container through the same callee
-            base = '%s|%s|%s%s' % (fn.name, kind, short(c.callee), self._src_label(fn, c))
+            base = '%s|%s|%s%s' % (fn.name, kind, CONSUMER_ALIAS.get(short(c.callee), short(c.callee)), self._src_label(fn, c))
             ordn[base] += 1
             return '%s#%d' % (base, ordn[base])
 
